@@ -237,6 +237,19 @@ fn values_d(m: &Module, ty: &Ty, b: &Budget, depth: usize) -> Vec<Value> {
                     out.push(Value::Str(string_of(*cs, n as usize, p)));
                 }
             }
+            // a multi-octet character lying across an octet offset that is a power of two (code that cuts
+            // or copies a decoded string at a fixed octet count meets the middle of a character)
+            if !nested && *cs == Charset::Utf8 {
+                for at in [16u64, 64, 256, 1024] {
+                    let n = at + 2;
+                    if size.contains(n) && n <= b.max_size {
+                        let mut t: String = std::iter::repeat('a').take(at as usize - 1).collect();
+                        t.push('€');
+                        t.push_str("zz");
+                        out.push(Value::Str(t));
+                    }
+                }
+            }
             // every permitted character appears at least once (if the size allows it)
             if !nested && *cs != Charset::Utf8 {
                 let a = cs.alphabet();
